@@ -285,6 +285,11 @@ def wl_cms(ctx, rng, case):
     exact = [("0.95", "0.003"), ("0.9", "0.07"), ("0.99", "0.0003"), ("0.5", "0.002"), ("0.999", "0.3"), ("0.875", "0.0007")]
     if case.index == 0:
         todo += [(Decimal(c), Decimal(e)) for c, e in exact] + [(Fraction(c), Fraction(e)) for c, e in exact] + [(float(c), Decimal(e)) for c, e in exact[:3]]
+        # confidences as close to 1 as the number types allow (dozens of rows)
+        import math as _m
+
+        todo += [(_m.nextafter(1.0, 0.0), 0.5), (1 - 2.0 ** -52, 0.5), (1 - 2.0 ** -40, 0.1), (1 - 2.0 ** -30 * 1.5, 0.1), (Fraction(10**18 - 1, 10**18), Fraction(1, 2)),
+                 (Fraction(2**56 - 1, 2**56), Fraction(1, 3)), (Decimal("0.99999999999999999999"), Decimal("0.5")), (1 - 1e-15, 0.25)]
     elif rng.random() < 0.5:
         c, e = rng.choice(exact)
         e = str(round(rng.uniform(0.0003, 0.9), rng.randint(3, 5)))
@@ -304,7 +309,10 @@ def wl_cms(ctx, rng, case):
         w, d = s.width, s.depth
         ctx.check(isinstance(w, int) and isinstance(d, int) and w >= 1 and d >= 1, f"width/depth not positive integers {where}", width=w, depth=d)
         ctx.check(Decimal(2) / Decimal(w) <= D(err) * (ONE + SL), f"2/width exceeds the requested error rate {where}", width=w)
-        ctx.check(ONE - ONE / (Decimal(2) ** d) >= D(conf) * (ONE - SL), f"1 - 2^-depth is below the requested confidence {where}", depth=d)
+        # judged on the FAILURE probability (the slack is relative to 1 - confidence, not to the confidence: a confidence within 2^-52 of 1
+        # must not be waved through by a tolerance that is a million times larger than what it asks for)
+        ctx.check(ONE / (Decimal(2) ** d) <= (ONE - D(conf)) * (ONE + SL), f"1 - 2^-depth is below the requested confidence {where}", depth=d,
+                  needed=str((ONE / (ONE - D(conf))).ln() / Decimal(2).ln()))
         ctx.check(s.confidence == conf and s.error_rate == err, f"confidence/error_rate accessors do not report the request {where}")
         s2 = cls(confidence=conf, error_rate=err)
         ctx.check((s2.width, s2.depth) == (w, d), f"two constructions disagree {where}")
